@@ -360,6 +360,7 @@ func genC14(g *G) {
 	}
 	// ---- prefix ----
 	addrs := []string{"1.2.3.4", "::1", "::ffff:1.2.3.4", "fe80::1%eth0", "0.0.0.0", "256.1.1.1", "1.2.3", "::", "1:2:3:4:5:6:7:8", "localhost", "", "::ffff:0:0", "01.2.3.4",
+		"2001:0db8:0000:0000:0000:ffff:192.168.100.1", "1111:2222:3333:4444:5555:6666:123.123.123.123", "0000:0000:0000:0000:0000:0000:0000:0001%" + strings.Repeat("z", 20),
 		"fe80::1%net/wlan0", "fe80::1%e/0", "fe80::1%/", "1.2.3.4%x", "fe80::1%a/b/c/d/e"}
 	sufs := []string{"", "/0", "/8", "/32", "/33", "/128", "/129", "/", "/-1", "/08", "/+8", "/ 8", "/8/8", "/a", "//8", "/96", "/0064", "/00000008", "/64 ", "/1e1"}
 	for _, a := range addrs {
@@ -380,7 +381,9 @@ func genC14(g *G) {
 		raw := pick(schemes) + pick(users) + pick(uhosts) + pick(paths) + pick(queries) + pick(frags)
 		emitURL(g, raw)
 	}
-	for _, raw := range []string{"", "#", "%2f%2f\\", "http://a/?x=1&y=2", "http://a/?x=1&y=\"2\"", "a", "/", "?", "http://[::1]:80/", ":", "http://a b/", "http://a/\x7f", "HTTP://A/", "http://a/?\xff", "x:y", "http://u:p@h/p?q#f"} {
+	for _, raw := range []string{"", "#", "%2f%2f\\", "http://a/?x=1&y=2", "http://a/?x=1&y=\"2\"", "a", "/", "?", "http://[::1]:80/", ":", "http://a b/", "http://a/\x7f", "HTTP://A/", "http://a/?\xff", "x:y", "http://u:p@h/p?q#f",
+		// relative URLs that spell JSON literals and other tokens
+		"null", "true", "false", "0", "\"\"", "nul", "null ", "NULL", "null/x", "[]", "{}", "-1", "1e3"} {
 		emitURL(g, raw)
 	}
 	// ---- JSON string codec (stdlib model validation) ----
